@@ -37,7 +37,10 @@ def _ops(draw, kind, d):
             else:
                 ops.append(["advance", draw(st.sampled_from([0, 1, 1, 2, 3, 7]))])
             continue
-        k = draw(st.sampled_from(["step", "step", "advance", "exchange", "exchange", "restart"]))
+        k = draw(st.sampled_from(["step", "step", "advance", "exchange", "exchange", "restart", "inspect"]))
+        if k == "inspect":
+            ops.append(["inspect", draw(st.integers(0, 7)) == 0])
+            continue
         if k == "step":
             ops.append(["step"])
         elif k == "advance":
@@ -141,6 +144,10 @@ def run_ops(h, ops, V, stats, inputs, snap, xrng):
                     _viol(V, "exchange.installed", "%s: after an exchange installing %r the last recorded sample is %r"
                           % (h.label, pos.tolist(), S[-1].tolist()))
                 stats["fault_exchange_installs_foreign_point"] += 1
+            elif name == "inspect":
+                inspect_is_pure(V, h, stats, plots=bool(op[1]))
+                if V:
+                    return
             elif name == "restart":
                 old_chain = lc.op_restart(h, "r%d" % stats["fault_crash_restart"])
                 sync_generators(h.chain, old_chain)
@@ -171,6 +178,52 @@ def run_ops(h, ops, V, stats, inputs, snap, xrng):
         if ch:
             _viol(V, "inputs.unchanged", "%s: caller's input array(s) %r were modified (after %r)" % (h.label, ch, op))
         prev_len = S.shape[0]
+
+
+def inspect_is_pure(V, h, stats, plots=False):
+    """Read-only / diagnostic calls must leave the recorded chain and the random streams untouched."""
+    from simkit.rng import find_generators
+
+    def fingerprint():
+        S, P = h.rows()
+        gens = {k: str(g.bit_generator.state["state"]) for k, g in find_generators(h.chain).items()}
+        return (S.shape, hashlib.sha256(S.tobytes()).hexdigest(), hashlib.sha256(P.tobytes()).hexdigest(), h.length(), gens)
+
+    before = fingerprint()
+    n = before[3]
+    ch = h.chain
+    calls = [("mode", lambda: ch.mode()), ("get_interval", lambda: ch.get_interval(0.9, burn=0)),
+             ("get_interval(samples)", lambda: ch.get_interval(0.5, burn=0, samples=3)),
+             ("get_parameter", lambda: ch.get_parameter(0, burn=0, thin=2)), ("get_sample", lambda: ch.get_sample(burn=1, thin=1)),
+             ("get_probabilities", lambda: ch.get_probabilities(burn=0, thin=3))]
+    if n >= 5:
+        calls.append(("get_marginal", lambda: ch.get_marginal(0, burn=0)))
+    if hasattr(ch, "estimate_burn_in") and n >= 8:
+        calls.append(("estimate_burn_in", lambda: ch.estimate_burn_in()))
+    if plots and n >= 12:
+        import matplotlib.pyplot as plt
+
+        if h.kind != "ensemble":
+            calls.append(("plot_diagnostics", lambda: ch.plot_diagnostics(show=False)))
+        calls.append(("trace_plot", lambda: ch.trace_plot(show=False)))
+        calls.append(("matrix_plot", lambda: ch.matrix_plot(show=False)))
+    if n == 0:
+        return
+    done = []
+    for name, f in calls:
+        try:
+            f()
+            done.append(name)
+        except Exception:  # noqa - whether a diagnostic works on this chain is not C03's business
+            pass
+        finally:
+            if plots and n >= 12:
+                plt.close("all")
+    stats["inspect_calls"] += len(done)
+    after = fingerprint()
+    if after != before:
+        what = [w for w, a, b in zip(("sample shape", "samples", "log-probabilities", "chain_length", "generator states"), after, before) if a != b]
+        _viol(V, "inspect.pure", "%s: read-only calls %r changed the recorded chain / random streams (%s)" % (h.label, done, ", ".join(what)))
 
 
 def pair_exchange(V, a, b, stats):
